@@ -3,7 +3,7 @@
    old one re-expressed in a right-handed orthonormal frame with a || e1 and
    c* || e3; lattice parameters and the atoms' Cartesian positions are kept. *)
 From Coq Require Import Reals ZArith Lra Lia Nsatz Bool List Psatz.
-From Verif Require Import Scalar RInst C09Lin C09Miller C09.
+From Verif Require Import Scalar RInst C09Lin C09Miller C09Model.
 From Verif Require Import C09LinAlg C09Alg.
 Import ListNotations.
 Local Open Scope R_scope.
